@@ -49,7 +49,8 @@ ASSUMPTIONS = ['arguments are nodes (not plain str); every node is created by th
                'operations that make the Python loop iterate a list it extends (fragment into itself) are not executed on the real code',
                'a history stops (both sides answer `cyclic`) as soon as a node becomes its own descendant; generators avoid such operations',
                'editing theorems assume no attributes[self] aliasing (NoAlias); histories with aliasing are compared with the model and a Python oracle only']
-RULE = ('oracles besides the list model: at every cloneNode(True) the clone must be == its original (both directions, isEqualNode) and share no node with it; after every normalize no two text nodes may be adjacent anywhere below the node, attribute-held fragments included; an attributes[self] fragment must list exactly the children of its element and belong to one element only; '
+RULE = ('the implementation runner reads the derived views (textContent, getElementsByTagName, first/last child, siblings) of every reachable node after every operation of a history, so a view that remembers an earlier answer shows up in the final observation; '
+        'oracles besides the list model: at every cloneNode(True) the clone must be == its original (both directions, isEqualNode) and share no node with it; after every normalize no two text nodes may be adjacent anywhere below the node, attribute-held fragments included; an attributes[self] fragment must list exactly the children of its element and belong to one element only; '
         'exhaustive: breadth-first over all pool operations, histories reaching an already seen full observation are not extended; random: seeded '
         'histories to length 40 with ~15% malformed operations (out-of-range indexes, attached arguments, absent references); '
         'non-trivial = spec defined, no error, and at least one node has two or more children or a grandchild; distinct = distinct request line')
@@ -260,6 +261,19 @@ class World:
         t = self.attr_node(n, 'title')
         return self.kids(n) + ([t] if t is not None else [])
 
+    def peek(self):
+        """read the derived views of every reachable node in the middle of a history: reading is an observation, so the
+        final observation (and every later read) must be what the child lists say, whatever was read before"""
+        for n in self.order():
+            try:
+                n.textContent
+                n.getElementsByTagName('n0')
+                n.firstChild; n.lastChild; n.previousSibling; n.nextSibling
+            except RecursionError:
+                raise
+            except Exception:
+                pass
+
     def cyclic_from(self, starts):
         """does one of the nodes whose list just changed reach itself?  (equivalent to `cyclic` when the state before the
         operation was acyclic: every new edge leaves one of these nodes)"""
@@ -370,7 +384,7 @@ def parse_line(line):
     return parts[0], [p for p in parts[1:] if p]
 
 
-def run_history(line):
+def run_history(line, peek=False):
     pool, ops = parse_line(line)
     w = World(pool)
     err = 'ok'
@@ -384,13 +398,18 @@ def run_history(line):
             holders = [n for n in w.order() if w.attr_node(n, 'self') is s] if w.is_frag(s) else []
             if w.cyclic_from([s] + ([f] if f is not None else []) + holders):
                 return w, 'cyclic'      # the recursive views of the real code would not return: the history stops here
+        if peek:
+            try:
+                w.peek()
+            except RecursionError:
+                pass
     return w, err
 
 
 def impl(case, aux):
     D = _dom()
     D.CharacterData._dummyChildNodes[:] = []
-    w, err = run_history(case.line)
+    w, err = run_history(case.line, peek=True)
     if err == 'cyclic':
         return 'cyclic'
     if err == 'bad':
